@@ -412,10 +412,15 @@ def edit_families(prefix, fmt='', ops=frozenset({'IMPLIES', 'OR', 'EXCLUDES', 'A
                 MaxEdits=3, EditKinds=kinds | ({'attrval', 'attrname', 'rmattr'} if attrs else set()), Fmt=fmt)
     one = dict(N=3, MaxKids=2, MinHi=0, AllowStar=False, Axes={'ctc'}, MaxCtc=1, CtcDepth=1, CtcBinOps=set(ops), CtcMinFeatures=2,
                MaxEdits=1, EditKinds=kinds - {'abs'}, Fmt=fmt)
+    struct = dict(N=4, MaxKids=3, MinHi=0, AllowStar=False, MaxEdits=1, EditKinds=kinds - {'abs', 'rmctc', 'ctcop', 'import'}, Fmt=fmt)
     return {
-        prefix + 'Edit1': {    # exhaustive: every single edit of every small model
+        prefix + 'Edit1': {    # exhaustive: every single edit of every model with up to three features and one constraint
             'quick':    dict(consts=one, invariants=tlc.GEN_INVARIANTS, cap=q[0]),
-            'thorough': dict(consts=dict(one, N=4), invariants=tlc.GEN_INVARIANTS, cap=t[0]),
+            'thorough': dict(consts=one, invariants=tlc.GEN_INVARIANTS, cap=t[0]),
+        },
+        prefix + 'Edit1s': {   # exhaustive: every single structural edit of every tree with up to four features
+            'quick':    dict(consts=struct, invariants=tlc.GEN_INVARIANTS, cap=max(150, q[0] // 2)),
+            'thorough': dict(consts=struct, invariants=tlc.GEN_INVARIANTS, cap=t[0]),
         },
         prefix + 'EditWalk': {  # seeded walks: larger models, up to three edits
             'quick':    dict(consts=walk, invariants=tlc.GEN_INVARIANTS, simulate=dict(num=q[1], depth=16), cap=q[0]),
